@@ -3,7 +3,7 @@
    the returned tree is the one the documentation prescribes for it.
    Core token lists: no newline, no trailing comma. *)
 From Coq Require Import List NArith ZArith Bool Arith Lia.
-From NV Require Import Syntax.Token Syntax.Ast Syntax.StrEsc Syntax.Parser Syntax.Grammar
+From NV Require Import Syntax.Token Syntax.Ast Syntax.StmtAst Syntax.StrEsc Syntax.Parser Syntax.Grammar
      Syntax.ParserProofs.
 Import ListNotations.
 Local Open Scope nat_scope.
@@ -699,74 +699,64 @@ Proof. intros ts e rest C H. unfold expression in H. eapply expression_d_sound; 
 Definition no_separator (ts : list token) : bool :=
   forallb (fun t => match t with TSemicolon => false | _ => true end) ts.
 
-Lemma statement_sound : forall ts st rest, core ts = true -> statement ts = Ok st rest ->
+(* statements of the proved fragment: expressions, `let name = e`, procedure calls (the other
+   statement forms are in the parser model and in C10_roundtrip_full, not in this inversion) *)
+Definition simple_start (ts : list token) : bool :=
+  match ts with
+  | TKw KLet :: TIdent _ :: TEqual :: _ => true
+  | TKw KLet :: _ => false
+  | TKw KFn :: _ | TKw KDimension :: _ | TAt :: _ | TKw KUnit :: _ | TKw KUse :: _ | TKw KStruct :: _ => false
+  | _ => true
+  end.
+
+Lemma statement_sound : forall ts st rest, core ts = true -> simple_start ts = true ->
+  statement ts = Ok st rest ->
   exists s, wf_stmt s = true /\ desugar_stmt s = st /\ ts = pr_stmt s ++ rest.
 Proof.
-  intros ts st rest C H. unfold statement in H.
+  intros ts st rest C SS H.
   assert (Generic : bind (expression ts) (fun e rest => Ok (StExpr e) rest) = Ok st rest ->
     exists s, wf_stmt s = true /\ desugar_stmt s = st /\ ts = pr_stmt s ++ rest).
   { intros H'. apply bind_ok in H'. destruct H' as (e & r1 & E & H'). inversion H'; subst.
     destruct (expression_sound ts e rest C E) as (t & W & D & Et).
     exists (SSExpr t). conj; auto. simpl. rewrite D. reflexivity. }
-  destruct ts as [|tok r]; [apply Generic; exact H|].
-  destruct tok; try (apply Generic; exact H).
-  destruct k; try (apply Generic; exact H).
-  - (* let *)
-    unfold parse_variable in H.
+  assert (Proc : forall k r, is_procedure k = true -> core (TKw k :: r) = true ->
+            parse_procedure k r = Ok st rest ->
+            exists s, wf_stmt s = true /\ desugar_stmt s = st /\ TKw k :: r = pr_stmt s ++ rest).
+  { intros k r Hk Ck Hp. unfold parse_procedure in Hp.
     destruct r as [|t1 r1]; [discriminate|]. destruct t1; try discriminate.
-    destruct r1 as [|t2 r2]; [discriminate|]. destruct t2; try discriminate.
-    assert (Cr2 : core r2 = true) by (eapply core_tail; eapply core_tail; eapply core_tail; eauto).
-    rewrite (core_skip r2 Cr2) in H.
-    apply bind_ok in H. destruct H as (e & r3 & E & H). inversion H; subst.
-    destruct (expression_sound r2 e rest Cr2 E) as (t & W & D & Et).
-    exists (SSLet name t). conj; auto.
-    + simpl. rewrite D. reflexivity.
-    + simpl. rewrite Et. reflexivity.
-  - (* print *)
-    simpl in H. destruct r as [|t1 r1]; [discriminate|]. destruct t1; try discriminate.
-    apply bind_ok in H. destruct H as (args & r2 & E & H). inversion H; subst.
+    apply bind_ok in Hp. destruct Hp as (args & r2 & E & Hp). inversion Hp; subst.
     assert (Cr1 : core r1 = true) by (eapply core_tail; eapply core_tail; eauto).
     destruct (arguments_sound _ (expression_d_sound (S (length r1))) r1 args rest Cr1 E) as (targs & Wa & Da & Ea).
-    exists (SSProc KPrint targs). conj.
-    + simpl. exact Wa.
-    + simpl. rewrite Da. reflexivity.
-    + simpl. rewrite Ea. rewrite <- app_assoc. reflexivity.
-  - simpl in H. destruct r as [|t1 r1]; [discriminate|]. destruct t1; try discriminate.
-    apply bind_ok in H. destruct H as (args & r2 & E & H). inversion H; subst.
-    assert (Cr1 : core r1 = true) by (eapply core_tail; eapply core_tail; eauto).
-    destruct (arguments_sound _ (expression_d_sound (S (length r1))) r1 args rest Cr1 E) as (targs & Wa & Da & Ea).
-    exists (SSProc KAssert targs). conj.
-    + simpl. exact Wa.
-    + simpl. rewrite Da. reflexivity.
-    + simpl. rewrite Ea. rewrite <- app_assoc. reflexivity.
-  - simpl in H. destruct r as [|t1 r1]; [discriminate|]. destruct t1; try discriminate.
-    apply bind_ok in H. destruct H as (args & r2 & E & H). inversion H; subst.
-    assert (Cr1 : core r1 = true) by (eapply core_tail; eapply core_tail; eauto).
-    destruct (arguments_sound _ (expression_d_sound (S (length r1))) r1 args rest Cr1 E) as (targs & Wa & Da & Ea).
-    exists (SSProc KAssertEq targs). conj.
-    + simpl. exact Wa.
-    + simpl. rewrite Da. reflexivity.
-    + simpl. rewrite Ea. rewrite <- app_assoc. reflexivity.
-  - simpl in H. destruct r as [|t1 r1]; [discriminate|]. destruct t1; try discriminate.
-    apply bind_ok in H. destruct H as (args & r2 & E & H). inversion H; subst.
-    assert (Cr1 : core r1 = true) by (eapply core_tail; eapply core_tail; eauto).
-    destruct (arguments_sound _ (expression_d_sound (S (length r1))) r1 args rest Cr1 E) as (targs & Wa & Da & Ea).
-    exists (SSProc KType targs). conj.
-    + simpl. exact Wa.
-    + simpl. rewrite Da. reflexivity.
-    + simpl. rewrite Ea. rewrite <- app_assoc. reflexivity.
+    exists (SSProc k targs). conj.
+    - simpl. rewrite Hk. exact Wa.
+    - simpl. rewrite Da. reflexivity.
+    - simpl. rewrite Ea. rewrite <- app_assoc. reflexivity. }
+  destruct ts as [|tok r]; [apply Generic; exact H|].
+  destruct tok; try (apply Generic; exact H); try discriminate.
+  destruct k; try (apply Generic; exact H); try discriminate;
+    try (rewrite statement_procedure in H by reflexivity; eapply Proc; [reflexivity|exact C|exact H]).
+  (* let *)
+  destruct r as [|t1 r1]; [discriminate|]. destruct t1; try discriminate.
+  destruct r1 as [|t2 r2]; [discriminate|]. destruct t2; try discriminate.
+  rewrite statement_let_plain in H.
+  assert (Cr2 : core r2 = true) by (eapply core_tail; eapply core_tail; eapply core_tail; eauto).
+  rewrite (core_skip r2 Cr2) in H.
+  apply bind_ok in H. destruct H as (e & r3 & E & H). inversion H; subst.
+  destruct (expression_sound r2 e rest Cr2 E) as (t & W & D & Et).
+  exists (SSLet name t). conj; auto.
+  - simpl. rewrite D. reflexivity.
+  - simpl. rewrite Et. reflexivity.
 Qed.
 
-(* whatever `parse` accepts (core tokens, one statement) is the print of a well-formed statement *)
+(* whatever `parse` accepts (core tokens, one statement of the fragment) is the print of a well-formed statement *)
 Theorem parse_sound : forall ts ss,
-  core ts = true -> no_separator ts = true -> parse ts = Ok ss [] ->
+  core ts = true -> no_separator ts = true -> simple_start ts = true -> parse ts = Ok ss [] ->
   ts = [] /\ ss = [] \/ exists s, wf_stmt s = true /\ pr_stmt s = ts /\ ss = [desugar_stmt s].
 Proof.
-  intros ts ss C NS H. unfold parse in H. rewrite (core_skip ts C) in H.
+  intros ts ss C NS SS H. unfold parse in H. rewrite (core_skip ts C) in H.
   cbn [parse_loop] in H. destruct ts as [|tok r]; [left; inversion H; split; reflexivity|right].
-  destruct (starts_other_statement (tok :: r)); [discriminate|].
   destruct (statement (tok :: r)) as [st rest| | |] eqn:E; try discriminate.
-  destruct (statement_sound _ st rest C E) as (s & W & D & Et).
+  destruct (statement_sound _ st rest C SS E) as (s & W & D & Et).
   assert (Crest : core rest = true) by (apply (core_app_r (pr_stmt s)); rewrite <- Et; exact C).
   assert (NSrest : no_separator rest = true).
   { unfold no_separator in *. rewrite Et in NS. rewrite forallb_app in NS. apply andb_prop in NS. tauto. }
@@ -776,13 +766,21 @@ Proof.
     destruct t2; try discriminate. destruct (last_is_rparen _); discriminate.
 Qed.
 
-(* acceptance of a core token list (one statement) characterised exactly *)
+Lemma pr_stmt_simple : forall s, wf_stmt s = true -> simple_start (pr_stmt s) = true.
+Proof.
+  intros [t|n t|k args] W; simpl in W.
+  - destruct (pr_first t W) as (tok & r & E & Fi & _). simpl. rewrite E. destruct tok; try discriminate; reflexivity.
+  - reflexivity.
+  - apply andb_prop in W. destruct W as [Hk _]. destruct k; try discriminate; reflexivity.
+Qed.
+
+(* acceptance of a core token list (one statement of the fragment) characterised exactly *)
 Theorem parse_characterised : forall ts st,
-  core ts = true -> no_separator ts = true ->
+  core ts = true -> no_separator ts = true -> simple_start ts = true ->
   (parse ts = Ok [st] [] <-> exists s, wf_stmt s = true /\ pr_stmt s = ts /\ desugar_stmt s = st).
 Proof.
-  intros ts st C NS. split.
-  - intros H. destruct (parse_sound ts [st] C NS H) as [[_ E]|(s & W & P & E)]; [discriminate|].
+  intros ts st C NS SS. split.
+  - intros H. destruct (parse_sound ts [st] C NS SS H) as [[_ E]|(s & W & P & E)]; [discriminate|].
     exists s. inversion E; subst. conj; auto.
   - intros (s & W & P & D). subst. apply roundtrip_stmt. exact W.
 Qed.
